@@ -20,40 +20,83 @@ COMMUTATIVE = {op.AND, op.OR, op.PLUS, op.TIMES, op.IFF, op.EQUALS, op.BV_AND, o
                op.BV_ADD, op.BV_MUL, op.BV_COMP}
 
 
+def _formula_table():
+    """(name, builder(m, S, F)) in creation order; S and F are mappings name -> FNode"""
+    T = []
+
+    def add(name, fn):
+        T.append((name, fn))
+    add("F1", lambda m, S, F: m.And(S["a"], m.Or(S["b"], m.Not(S["a"]))))
+    add("F2", lambda m, S, F: m.Implies(S["a"], m.LE(S["x"], S["y"])))
+    add("F3", lambda m, S, F: m.Equals(m.Plus(S["x"], m.Int(1)), m.Times(m.Int(2), S["y"])))
+    add("F4", lambda m, S, F: m.ForAll([S["x"]], m.Exists([S["y"]], m.LT(S["x"], S["y"]))))
+    add("F5", lambda m, S, F: m.Iff(F["F1"], F["F2"]))
+    add("F6", lambda m, S, F: m.Ite(S["a"], S["x"], m.Plus(S["x"], S["y"])))
+    add("F7", lambda m, S, F: m.BVULT(S["u"], m.BVAdd(S["u"], m.BV(1, 2))))
+    add("F8", lambda m, S, F: m.Equals(m.Function(S["f"], [S["x"]]), S["y"]))
+    add("F9", lambda m, S, F: m.And(F["F3"], F["F2"], m.Not(F["F1"])))
+    add("F10", lambda m, S, F: m.LE(m.ToReal(S["x"]), m.Plus(S["r"], m.Real(Fraction(1, 2)))))
+    add("F11", lambda m, S, F: m.Equals(m.StrLength(S["st"]), S["x"]))
+    add("F12", lambda m, S, F: m.StrContains(S["st"], m.String("a")))
+    add("F13", lambda m, S, F: m.Equals(m.Select(m.Store(S["A"], S["x"], m.Int(1)), S["y"]), m.Select(S["A"], S["y"])))
+    # the simplifier is not idempotent on F14: its result is (structurally) F15, which simplifies further
+    add("F14", lambda m, S, F: m.Plus(m.Minus(m.Int(3), S["x"]), m.Plus(m.Int(1), m.Int(1))))
+    add("F15", lambda m, S, F: m.Minus(m.Plus(m.Int(3), m.Int(2)), S["x"]))
+    add("F16", lambda m, S, F: m.LE(F["F15"], S["y"]))
+    add("F17", lambda m, S, F: m.Or(S["a"], m.And(S["FV1"], S["b"])))
+    # a power over an Int-typed non-linear base, and another formula sharing that base (analyses that
+    # memoise one result object per node must not let the result of the power touch the base's)
+    add("F18", lambda m, S, F: m.Equals(m.Pow(m.Times(S["x"], S["y"]), m.Int(2)), S["r"]))
+    add("F19", lambda m, S, F: m.Equals(m.Times(S["x"], S["y"]), m.Int(4)))
+    # an equality between symbols whose names start with @ (the model-validation simplifier of the SMT-LIB
+    # layer treats such symbols as distinct values; the ordinary simplifier must not)
+    add("F20", lambda m, S, F: m.Or(m.Equals(S["@a"], S["@b"]), S["a"]))
+    return T
+
+
+FORMULA_TABLE = _formula_table()
+# further formulas that only the construction-order part builds (products with negative / fractional
+# coefficients, whose normal form must not depend on whether the constant existed before the symbols)
+ORDER_TABLE = [
+    ("G1", lambda m, S, F: m.Equals(m.Plus(S["x"], m.Times(S["y"], m.Int(-3))), m.Int(0))),
+    ("G2", lambda m, S, F: m.LT(m.Times(S["r"], m.Real(Fraction(-1, 2))), m.Plus(S["r"], m.Real(2)))),
+    ("G3", lambda m, S, F: m.LE(m.Minus(S["x"], m.Times(m.Int(2), S["y"])), m.Times(m.Int(-1), S["x"], S["y"]))),
+    ("G4", lambda m, S, F: m.Equals(m.BVMul(S["u"], m.BV(3, 2)), m.BVAdd(m.BV(3, 2), S["u"]))),
+    ("G5", lambda m, S, F: m.And(m.LE(m.Int(-3), S["y"]), m.Or(S["b"], S["a"]), m.Iff(S["b"], S["a"]))),
+]
+
+
 def build_universe(env):
     """name -> FNode (in creation order); every environment builds the same structures"""
     m = env.formula_manager
     S = {n: m.Symbol(n, mk_type(env, s)) for n, s in UNIVERSE_SYMS.items()}
-    a, b, x, y, r, u, f = (S[n] for n in ("a", "b", "x", "y", "r", "u", "f"))
     F = {}
-    F["F1"] = m.And(a, m.Or(b, m.Not(a)))
-    F["F2"] = m.Implies(a, m.LE(x, y))
-    F["F3"] = m.Equals(m.Plus(x, m.Int(1)), m.Times(m.Int(2), y))
-    F["F4"] = m.ForAll([x], m.Exists([y], m.LT(x, y)))
-    F["F5"] = m.Iff(F["F1"], F["F2"])
-    F["F6"] = m.Ite(a, x, m.Plus(x, y))
-    F["F7"] = m.BVULT(u, m.BVAdd(u, m.BV(1, 2)))
-    F["F8"] = m.Equals(m.Function(f, [x]), y)
-    F["F9"] = m.And(F["F3"], F["F2"], m.Not(F["F1"]))
-    F["F10"] = m.LE(m.ToReal(x), m.Plus(r, m.Real(Fraction(1, 2))))
-    st, A = S["st"], S["A"]
-    F["F11"] = m.Equals(m.StrLength(st), x)
-    F["F12"] = m.StrContains(st, m.String("a"))
-    F["F13"] = m.Equals(m.Select(m.Store(A, x, m.Int(1)), y), m.Select(A, y))
-    # the simplifier is not idempotent on F14: its result is (structurally) F15, which simplifies further
-    F["F14"] = m.Plus(m.Minus(m.Int(3), x), m.Plus(m.Int(1), m.Int(1)))
-    F["F15"] = m.Minus(m.Plus(m.Int(3), m.Int(2)), x)
-    F["F16"] = m.LE(F["F15"], y)
-    F["F17"] = m.Or(a, m.And(S["FV1"], b))
-    # a power over an Int-typed non-linear base, and another formula sharing that base (analyses that
-    # memoise one result object per node must not let the result of the power touch the base's)
-    xy = m.Times(x, y)
-    F["F18"] = m.Equals(m.Pow(xy, m.Int(2)), r)
-    F["F19"] = m.Equals(xy, m.Int(4))
-    # an equality between symbols whose names start with @ (the model-validation simplifier of the SMT-LIB
-    # layer treats such symbols as distinct values; the ordinary simplifier must not)
-    F["F20"] = m.Or(m.Equals(S["@a"], S["@b"]), a)
+    for name, fn in FORMULA_TABLE:
+        F[name] = fn(m, S, F)
     return S, F
+
+
+class _LazySyms(dict):
+    def __init__(self, env):
+        dict.__init__(self)
+        self.env = env
+
+    def __missing__(self, n):
+        v = self.env.formula_manager.Symbol(n, mk_type(self.env, UNIVERSE_SYMS[n]))
+        self[n] = v
+        return v
+
+
+class _LazyFormulas(dict):
+    def __init__(self, env, S):
+        dict.__init__(self)
+        self.env, self.S = env, S
+        self.table = dict(FORMULA_TABLE + ORDER_TABLE)
+
+    def __missing__(self, n):
+        v = self.table[n](self.env.formula_manager, self.S, self)
+        self[n] = v
+        return v
 
 
 SUBST_MAPS = {
@@ -76,14 +119,27 @@ CONST_SPELLINGS = {
     "Real(Fraction(1,2))": lambda m: m.Real(Fraction(1, 2)), "Real('1')": lambda m: m.Real("1"),
     "String('a')": lambda m: m.String("a"), "BV(1,2)": lambda m: m.BV(1, 2),
 }
+# constants that the construction-order part creates ahead of the symbols
+ORDER_CONSTS = {
+    "Int(-3)": lambda m: m.Int(-3), "Int(-1)": lambda m: m.Int(-1), "Int(2)": lambda m: m.Int(2),
+    "Real(-1/2)": lambda m: m.Real(Fraction(-1, 2)), "Real(2)": lambda m: m.Real(2), "BV(3,2)": lambda m: m.BV(3, 2),
+    "Int(0)": lambda m: m.Int(0), "TRUE": lambda m: m.TRUE(),
+}
 MEASURES = (0, 1, 2, 3, 4, 5)
 
 
 class World(object):
-    def __init__(self, env=None):
+    def __init__(self, env=None, lazy=False):
+        """lazy: nothing exists until an event mentions it (symbols and formulas are created on first use), so
+        the creation order of the nodes is part of the history"""
         self.env = env or Environment()
         self.m = self.env.formula_manager
-        self.S, self.F = build_universe(self.env)
+        self.lazy = lazy
+        if lazy:
+            self.S = _LazySyms(self.env)
+            self.F = _LazyFormulas(self.env, self.S)
+        else:
+            self.S, self.F = build_universe(self.env)
 
     # ---- one API call, described by a JSON-able tuple -----------------------------------
     def call(self, ev):
@@ -94,10 +150,12 @@ class World(object):
         env, m, F, S = self.env, self.m, self.F, self.S
         k = ev[0]
         if k == "build":
+            if self.lazy:
+                return F[ev[1]]
             # re-building goes through create_node (and its type check) again
             return build_universe(env)[1][ev[1]]
         if k == "const":
-            return CONST_SPELLINGS[ev[1]](m)
+            return (CONST_SPELLINGS.get(ev[1]) or ORDER_CONSTS[ev[1]])(m)
         if k == "fresh":
             return m.FreshSymbol(mk_type(env, BOOL))
         if k == "parse":
@@ -153,7 +211,11 @@ class World(object):
             r = self.call(ev)
         except Exception as e:
             return ("exc", type(e).__name__)
-        return canon(r)
+        _USER[0] = set(dict.keys(self.S)) if self.lazy else UNIVERSE_SYMS
+        try:
+            return canon(r)
+        finally:
+            _USER[0] = UNIVERSE_SYMS
 
     def same_object_twice(self, ev):
         """for calls that introduce no fresh symbol: repeating returns the very same object"""
@@ -163,10 +225,18 @@ class World(object):
         except Exception:
             return True
         if hasattr(r1, "node_type") and hasattr(r2, "node_type"):
-            if has_fresh(r1):
-                return True
+            _USER[0] = set(dict.keys(self.S)) if self.lazy else UNIVERSE_SYMS
+            try:
+                if has_fresh(r1):
+                    return True
+            finally:
+                _USER[0] = UNIVERSE_SYMS
             return r1 is r2
         return True
+
+
+# names that denote user symbols in the world being observed (a lazy world only knows the symbols created so far)
+_USER = [UNIVERSE_SYMS]
 
 
 def has_fresh(f):
@@ -176,7 +246,7 @@ def has_fresh(f):
         if n in seen:
             continue
         seen.add(n)
-        if n.is_symbol() and n.symbol_name() not in UNIVERSE_SYMS:
+        if n.is_symbol() and n.symbol_name() not in _USER[0]:
             return True
         stack.extend(n.args())
     return False
@@ -207,10 +277,10 @@ def _theory_key(t):
 
 
 def _norm_fresh_text(s):
-    names = [m_ for m_ in re.findall(r"(?:FV|ack|__x)\d+", s) if m_ not in UNIVERSE_SYMS]
+    names = [m_ for m_ in re.findall(r"(?:FV|ack|__x)\d+", s) if m_ not in _USER[0]]
     nums = sorted(set(int(re.search(r"\d+", x).group()) for x in names))
     ren = {n: i for i, n in enumerate(nums)}
-    return re.sub(r"(FV|ack|__x)(\d+)", lambda mo: mo.group(0) if mo.group(0) in UNIVERSE_SYMS
+    return re.sub(r"(FV|ack|__x)(\d+)", lambda mo: mo.group(0) if mo.group(0) in _USER[0]
                   else "%s#%d" % (mo.group(1), ren[int(mo.group(2))]), s)
 
 
@@ -225,12 +295,12 @@ def ackey(f):
         seen.add(n)
         if n.is_symbol():
             mo = FRESH_RE.match(n.symbol_name())
-            if mo and n.symbol_name() not in UNIVERSE_SYMS:
+            if mo and n.symbol_name() not in _USER[0]:
                 fresh[n.symbol_name()] = (mo.group(1), int(mo.group(2)))
         if n.is_quantifier():
             for v in n.quantifier_vars():
                 mo = FRESH_RE.match(v.symbol_name())
-                if mo and v.symbol_name() not in UNIVERSE_SYMS:
+                if mo and v.symbol_name() not in _USER[0]:
                     fresh[v.symbol_name()] = (mo.group(1), int(mo.group(2)))
         if n.is_function_application():
             stack.append(n.function_name())
